@@ -30,11 +30,17 @@ ASSUMPTIONS = [
 @st.composite
 def params(draw, tier):
     p = {"rseed": draw(st.integers(0, 2 ** 32 - 1)), "ncells": draw(st.integers(4, 60 if tier == "thorough" else 28)),
-         "ne": draw(st.integers(3, 9)), "ragged": draw(st.sampled_from([0.0, 0.0, 0.25, 0.4]))}
+         "ne": draw(st.integers(3, 9)), "ragged": draw(st.sampled_from([0.0, 0.0, 0.25, 0.4])),
+         # a brick tissue with two size populations (areas 1 : 6) instead of a Voronoi tissue
+         "tissue_kind": draw(st.sampled_from(["voronoi"] * 6 + ["bricks2"]))}
     nt = 8 if tier == "thorough" else 3
     p["transforms"] = [{"sym": draw(st.integers(0, 7)), "pad": [draw(st.integers(0, 9)) for _ in range(4)],
                         "mirror_y": draw(st.booleans())} for _ in range(nt)]
     p["transforms"][0] = {"sym": 0, "pad": [0, 0, 0, 0], "mirror_y": False}
+    if p["ncells"] <= 12 and draw(st.integers(0, 3)) == 0:
+        # a small tissue in the corner of a large field of view: thousands of empty rows or columns around it
+        k = draw(st.integers(0, 3))
+        p["transforms"][-1]["pad"][k] = draw(st.sampled_from([4100, 4500]))
     return p
 
 
@@ -103,7 +109,7 @@ def degree_signature(n, pairs, border):
 
 
 def check_image(p, ctx):
-    img = raster.make_image(p["rseed"], p["ncells"], p.get("ragged", 0.0))
+    img = raster.make_image(p["rseed"], p["ncells"], p.get("ragged", 0.0), kind=p.get("tissue_kind", "voronoi"))
     if img is None:
         ctx.skip("image preconditions not met (discarded)")
         return
